@@ -4,3 +4,5 @@
 //@path std::io::ErrorKind => IoErrorKind
 //@path std::io::Error => IoError
 //@path lz4_flex::decompress_into => lz4_flex_d::decompress_into
+//@path crate::journal::writer::Writer => Writer
+//@path lsm_tree::MemtableId => MemtableId
